@@ -66,6 +66,9 @@ type style struct {
 	w, minW, maxW, h dim
 	minH, maxH       dim // auto = initial value (0 / none)
 	sizing           string  // content | padding | border
+	lines            int      // number of text lines (Ahem, separated by <br>); only in boxes without children
+	lineH            float64  // their line-height (px)
+	fontSize         int
 	explicitNone     bool     // write max-height:none although it is the initial value
 	junk             []string // invalid declarations (must be dropped alone)
 }
@@ -103,7 +106,7 @@ func (n *node) x() sx.X {
 		sx.L(s.ml.x(), s.mr.x(), s.mt.x(), s.mb.x(), s.pl.x(), s.pr.x(), s.pt.x(), s.pb.x()),
 		sx.L(sx.R(s.bl), sx.R(s.br), sx.R(s.bt), sx.R(s.bb)),
 		sx.L(s.w.x(), s.minW.x(), s.maxW.x(), s.h.x()),
-		s.minH.x(), s.maxH.x(), sx.A(s.sizing), sx.L(kids...))
+		s.minH.x(), s.maxH.x(), sx.A(s.sizing), sx.I(s.lines), sx.R(s.lineH), sx.L(kids...))
 }
 
 func (s style) css() string {
@@ -127,6 +130,9 @@ func (s style) css() string {
 	if s.sizing != "content" {
 		fmt.Fprintf(&b, "box-sizing:%s-box;", s.sizing)
 	}
+	if s.lines > 0 {
+		fmt.Fprintf(&b, "font-family:Ahem;font-size:%dpx;line-height:%vpx;", s.fontSize, s.lineH)
+	}
 	return b.String()
 }
 
@@ -144,6 +150,12 @@ func html(root *node, pageW int) string {
 		} else {
 			for _, k := range n.kids {
 				rec(k, "div")
+			}
+			for i := 0; i < n.st.lines; i++ {
+				if i > 0 {
+					b.WriteString("<br>")
+				}
+				b.WriteString(strings.Repeat("x", 1+i%2))
 			}
 		}
 		fmt.Fprintf(&b, "</%s>", tag)
@@ -242,8 +254,16 @@ func genStyle(r *rng.R, leaf bool, level int) style {
 	default:
 		s.maxW = genPct(r)
 	}
+	if leaf && level >= 2 && r.P(1, 4) {
+		// text leaf: 1-3 lines of Ahem text of known line height, height usually auto
+		s.lines = r.Range(1, 3)
+		s.fontSize = rng.Pick(r, 4, 8, 10)
+		s.lineH = float64(s.fontSize) + q(r, 0, 6)
+	}
 	if leaf {
 		switch k := r.Intn(20); {
+		case s.lines > 0 && k < 16:
+			s.h = auto
 		case k < 9:
 			s.h = px(q(r, 1, 40))
 		case k < 11:
@@ -365,6 +385,9 @@ func numbers(f *bo.BoxFields) implBox {
 		float64(f.BorderTopWidth.V()), float64(f.BorderRightWidth.V()), float64(f.BorderBottomWidth.V()), float64(f.BorderLeftWidth.V())}
 }
 
+// lineYs[k]: (PositionY, Height) of the line boxes of box nk, filled by layout
+var lineYs [][][2]float64
+
 // layout runs the real layout and returns the boxes of n0, n1, … in preorder, or an explanation.
 func layout(src string, fonts text.FontConfiguration, n int) ([]implBox, string, render.Outcome) {
 	var pages []*bo.PageBox
@@ -381,10 +404,19 @@ func layout(src string, fonts text.FontConfiguration, n int) ([]implBox, string,
 	}
 	out := make([]implBox, n)
 	seen := make([]int, n)
+	lineYs = make([][][2]float64, n)
 	var walk func(b bo.Box, parent int) string
 	walk = func(b bo.Box, parent int) string {
 		f := b.Box()
 		me := parent
+		if _, isLine := b.(*bo.LineBox); isLine {
+			// the line boxes of a text leaf: position and height are judged in Go (stackLines)
+			if parent < 0 {
+				return "line box outside a block"
+			}
+			lineYs[parent] = append(lineYs[parent], [2]float64{float64(f.PositionY), float64(f.Height.V())})
+			return ""
+		}
 		if id := elementID(f); id != "" {
 			var k int
 			if _, e := fmt.Sscanf(id, "n%d", &k); e != nil || k < 0 || k >= n {
@@ -518,6 +550,39 @@ func (rn *runner) check(root *node, pageW int, caseSeed uint64, family string, s
 	if !inDomain {
 		return nil
 	}
+	// judge (Go, trivial): the line boxes of a text leaf stack from its content edge, each line-height high
+	k := 0
+	var lineJudge func(nd *node)
+	lineJudge = func(nd *node) {
+		me := k
+		k++
+		if nd.st.lines > 0 {
+			b := impl[me]
+			y := b[1] + b[4] + b[12] + b[8] // PositionY + MarginTop + BorderTop + PaddingTop
+			bad := len(lineYs[me]) != nd.st.lines
+			for _, l := range lineYs[me] {
+				if l[0] != y || l[1] != nd.st.lineH {
+					bad = true
+				}
+				y += l[1]
+			}
+			if bad {
+				out.Add(res.Finding{Kind: "judge", Op: "judge:line-stack", Input: src, Impl: fmt.Sprintf("n%d: box %v lines %v", me, b, lineYs[me]),
+					Reason: fmt.Sprintf("box n%d: its %d lines of height %v must stack from the content edge without gaps", me, nd.st.lines, nd.st.lineH), Seed: caseSeed})
+			}
+		}
+		for _, c := range nd.kids {
+			lineJudge(c)
+		}
+	}
+	lineJudge(root)
+	hasText := false
+	for _, l := range lineYs {
+		hasText = hasText || len(l) > 0
+	}
+	if hasText {
+		out.Hit(family + ":with-text-lines")
+	}
 	// judge: the CSS 2.1 statements on the implementation's numbers
 	jans, err := rn.m.Ask(sx.L(sx.A("judge"), sx.I(pageW), sx.I(100000), tree, implX(impl)))
 	if err != nil {
@@ -588,7 +653,7 @@ func Run(tier string, seed uint64, modelPath, repo string, out *res.Result) erro
 		nTrees, nCollapse = 500000, 100000
 	}
 	out.Rule = "trees: html>body>divs, <=12 boxes, depth<=5, every box with random margins (0, +, -, auto, %), paddings (px, %), borders, " +
-		"width/min-width/max-width (auto|none, px, %), height (auto, px incl. 0, %), min-height/max-height (auto|none, px, % — inside auto-height and fixed-height containing blocks), box-sizing, 4% invalid declarations; " +
+		"width/min-width/max-width (auto|none, px, %), height (auto, px incl. 0, %), a quarter of the leaves contain 1-3 lines of Ahem text (font-size 4/8/10px, line-height font-size+0..6px); min-height/max-height (auto|none, px, % — inside auto-height and fixed-height containing blocks), box-sizing, 4% invalid declarations; " +
 		"page width in {400,300,101,100}; all lengths multiples of 1/4 px; a case counts for the exact comparison when every model value is a multiple of 1/64 of absolute value <= 8192; " +
 		"product: {auto,-8,0,8,50%} for margin-left/right x {auto|none,0,8,50%,150px} for width/min-width/max-width x cb in {100,101} (exhaustive); " +
 		"collapse: random margin lists, collapseMargin (model) vs largest positive + most negative (spec); " +
@@ -669,6 +734,11 @@ func (rn *runner) corpus() error {
 		// … and inside a fixed-height one (=> 15px / 6px)
 		{mk(func(s *style) { s.h = px(30) }, mk(func(s *style) { s.maxH, s.minH = pct(50), pct(25) }, mk(func(s *style) { s.h = px(20) })),
 			mk(func(s *style) { s.minH = pct(25) }))},
+		// text blocks (line boxes): margins above the first line are not adjoining the bottom margin
+		{mk(func(s *style) { s.lines, s.fontSize, s.lineH, s.mt, s.mb = 2, 10, 10, px(40), px(5) }),
+			mk(func(s *style) { s.lines, s.fontSize, s.lineH, s.mt, s.bb = 2, 10, 10, px(30), 3 }),
+			mk(func(s *style) { s.lines, s.fontSize, s.lineH, s.mt, s.pb = 1, 8, 12.5, px(-6), px(4) }),
+			mk(func(s *style) { s.h = px(5) })},
 		// KF10-1 over-constrained
 		{mk(func(s *style) { s.w, s.h = px(150), px(1) }), mk(func(s *style) { s.w, s.h, s.mr = px(50), px(1), px(7) })},
 	}
